@@ -126,9 +126,12 @@ class ParallelMovPattern(RewritePattern):
                 # We can ignore all instances of this
                 leaves.discard(src.type)
                 results[idx] = src
-            elif dst.type == riscv.Registers.ZERO:
-                # Writes to the zero register are discarded, and it may be the
-                # destination of several moves: such a move is not an edge of the graph.
+            elif isinstance(dst.type, riscv.IntRegisterType) and not riscv.is_non_zero(
+                dst.type
+            ):
+                # Writes to the zero register (spelled `zero` or `x0`) are discarded,
+                # and it may be the destination of several moves: such a move is not
+                # an edge of the graph.
                 mvop = _insert_mv_op(
                     rewriter, src, dst.type, op.input_widths.get_values()[idx]
                 )
